@@ -79,6 +79,25 @@ static std::string check_digest(int type, const Bytes &msg, const std::vector<si
     return "";
 }
 
+// ---- long messages: total lengths whose bit count needs more than 32 bits (2^29 bytes) or whose byte count does (2^32), streamed
+// through both builds in generated update sizes without ever holding the message in memory; reference = OpenSSL EVP streaming.
+#include <openssl/evp.h>
+static std::string check_long(int type, uint64_t total, const std::vector<size_t> &upd, uint64_t seed, std::string *sig) {
+    Bytes block(4u << 20); { pbt::Rng r(seed); for (size_t i = 0; i < block.size(); i += 8) { uint64_t v = r.next(); memcpy(&block[i], &v, 8); } }
+    const EVP_MD *md = type == 0 ? EVP_sha1() : type == 1 ? EVP_sha256() : EVP_sha512(); EVP_MD_CTX *e = EVP_MD_CTX_new(); EVP_DigestInit_ex(e, md, nullptr);
+    zckCtx *za = OSSL.create(), *zb = BUND.create(); zckHashType ta, tb; memset(&ta, 0, sizeof ta); memset(&tb, 0, sizeof tb); zckHash ha, hb; memset(&ha, 0, sizeof ha); memset(&hb, 0, sizeof hb);
+    std::string what = std::string(TN[type]) + " of a " + std::to_string(total) + "-byte message streamed in updates of " + std::to_string(upd[0]) + (upd.size() > 1 ? "," + std::to_string(upd[1]) + ",..." : "") + " bytes";
+    if (!OSSL.hash_setup(za, &ta, type) || !OSSL.hash_init(za, &ha, &ta) || !BUND.hash_setup(zb, &tb, type) || !BUND.hash_init(zb, &hb, &tb)) { *sig = "long-setup"; return what + ": hash_setup/hash_init failed"; }
+    uint64_t done = 0; size_t k = 0, at = 0;
+    while (done < total) { size_t n = (size_t)std::min<uint64_t>(upd[k++ % upd.size()], total - done); if (at + n > block.size()) at = 0; n = std::min(n, block.size());
+        EVP_DigestUpdate(e, block.data() + at, n); if (!OSSL.hash_update(za, &ha, (const char *)block.data() + at, n) || !BUND.hash_update(zb, &hb, (const char *)block.data() + at, n)) { *sig = "long-update"; return what + ": hash_update failed"; } at += n; done += n; }
+    unsigned char out[64]; unsigned ol = 0; EVP_DigestFinal_ex(e, out, &ol); EVP_MD_CTX_free(e); Bytes r(out, out + (type == 3 ? 16 : ol));
+    char *da = OSSL.hash_finalize(za, &ha), *db = BUND.hash_finalize(zb, &hb); Bytes a, b; if (da) a.assign((uint8_t *)da, (uint8_t *)da + ta.digest_size); if (db) b.assign((uint8_t *)db, (uint8_t *)db + tb.digest_size); free(da); free(db); OSSL.free_(&za); BUND.free_(&zb);
+    if (b != r) { *sig = std::string("bundled-wrong-long:") + TN[type]; return what + ": bundled build gives " + pbt::hexs(b, 80) + ", the standard algorithm gives " + pbt::hexs(r, 80); }
+    if (a != r) { *sig = std::string("openssl-build-wrong-long:") + TN[type]; return what + ": OpenSSL build gives " + pbt::hexs(a, 80) + ", EVP streaming gives " + pbt::hexs(r, 80); }
+    return "";
+}
+
 // ---- file level through a shared object
 struct WCfg18 { int comp, level, chunk_hash, full_hash; bool manual, uncomp; Bytes dict; long cmax, cmin; };
 static bool write_through(Lib &L, const WCfg18 &w, const Bytes &D, const std::vector<std::pair<bool, size_t>> &ops, Bytes &out, std::string &err) {
@@ -156,6 +175,12 @@ static void enumerate(pbt::Runner &R) {
         std::vector<std::vector<size_t>> segs; segs.push_back({}); if (len) { std::vector<size_t> ones; for (size_t p = 1; p < len; p++) ones.push_back(p); segs.push_back(ones); segs.push_back({len / 2}); { std::vector<size_t> two = {len > 64 ? (size_t)64 : len / 3, len > 128 ? (size_t)128 : len / 3 * 2}; std::sort(two.begin(), two.end()); segs.push_back(two); } }
         for (auto &sg : segs) { n++; std::string e = check_digest(type, m, sg, &sig); if (!e.empty()) { std::vector<uint64_t> seq; if (R.report_enum_failure(seq, sig, e, std::string(TN[type]) + " length " + std::to_string(len))) return; } }
     }
+    // long messages: the bit count passes 2^32 at 2^29 bytes (every type once per run; thorough: +-1 and the byte count passing 2^32)
+    { std::vector<std::pair<int, uint64_t>> lm; uint64_t P29 = 1ull << 29, P32 = 1ull << 32;
+      if (!R.opt.tier) lm = {{1, P29}, {0, P29 + 1}, {3, P29 + 77}}; else lm = {{0, P29 - 1}, {0, P29}, {1, P29 - 1}, {1, P29}, {1, P29 + 64}, {2, P29}, {3, P29 + 1}, {1, P32 + 5}, {2, P32}, {0, P32 + 1}};
+      size_t idx = 0; for (auto &q : lm) { idx++; if (R.opt.tier && (idx % (size_t)std::max(1, R.opt.nproc)) != (size_t)R.opt.proc_index % (size_t)std::max(1, R.opt.nproc)) continue;
+          std::vector<size_t> upd = idx % 3 == 0 ? std::vector<size_t>{1u << 20} : idx % 3 == 1 ? std::vector<size_t>{65537, 4096, 1u << 22} : std::vector<size_t>{32768};
+          n++; std::string e = check_long(q.first, q.second, upd, idx, &sig); if (!e.empty()) { if (R.report_enum_failure({}, sig, e, std::string(TN[q.first]) + " long message " + std::to_string(q.second))) return; } } }
     R.st.extra_evals += n; R.st.distinct_by_construction += n; R.st.exhaustive = true;
     R.st.exhaustive_note = "all 4 digest types x every message length 0..300 x 3 contents x up to 4 update segmentations, plus the NIST vectors (empty, 'abc', 10^6 x 'a') for SHA-1/256/512, each through both builds";
 }
